@@ -433,7 +433,16 @@ func TestC18_Lifecycle(t *testing.T) {
 			},
 			"refreshValid": func(t *rapid.T) {
 				ops = append(ops, "refresh-valid")
-				_ = log.Refresh(map[string]string{"appender.d.type": "Discard"})
+				// the configuration may name tags nobody registered (they are simply unused), also strings
+				// that are not tag names at all: configuring does not register
+				listed := rapid.SampledFrom([]string{"", "c18l_never_registered", "Not-A-Tag", "c18l_a,c18l_b_*, _c18l_zz", "_c18l_cfg_only_*"}).Draw(t, "listedTags")
+				m := map[string]string{"appender.d.type": "Discard"}
+				if listed != "" {
+					m["logger.lt.type"], m["logger.lt.tags"], m["logger.lt.appenderRef.ref"] = "Logger", listed, "d"
+				}
+				if err := log.Refresh(m); err == nil && listed != "" {
+					ops[len(ops)-1] += "(tags=" + listed + ")"
+				}
 				locked = true
 			},
 			"refreshInvalid": func(t *rapid.T) {
@@ -458,7 +467,7 @@ func TestC18_Lifecycle(t *testing.T) {
 						}
 					}
 				}
-				if len(ops)%7 == 0 {
+				if len(ops)%5 == 0 {
 					checkRegistry(t, "after the history ["+strings.Join(ops, "; ")+"]")
 				}
 			},
